@@ -205,6 +205,9 @@ func Solve(file string, timeoutS int, all bool, cover bool) *SolveResult {
 			best = &a
 			if !all {
 				cancel()
+			} else {
+				// thorough: the other back ends get a short grace period to confirm or contradict the answer
+				go func() { time.Sleep(5 * time.Second); cancel() }()
 			}
 		} else if definite && best != nil && best.status != a.status {
 			res.Disagree = fmt.Sprintf("%s says %s, %s says %s", best.b, best.status, a.b, a.status)
@@ -212,6 +215,8 @@ func Solve(file string, timeoutS int, all bool, cover bool) *SolveResult {
 		if best == nil && a.status == "unknown" {
 			if cover && !all {
 				cancel()
+			} else if cover {
+				go func() { time.Sleep(5 * time.Second); cancel() }()
 			}
 			res.Status = "unknown"
 			res.Backend = a.b
